@@ -63,7 +63,11 @@ CallAgrees == CNT(fc' = Ev.fc /\ nlog' = Ev.nlogged)
 
 REvalX0 == EvOk("x0") /\ EvalX0_(Ev.yR) /\ CallAgrees /\ Consume
 RNoiseTest == EvOk("noisetest") /\ NoiseTest_(Ev.yR) /\ CallAgrees /\ Consume
-RInitEval == EvOk("init") /\ InitDesignEval_(Ev.yR) /\ CallAgrees /\ Consume
+RInitEval ==
+  /\ EvOk("init")
+  /\ \E merged \in BOOLEAN :
+     \E w \in (IF merged THEN Vals ELSE {Min2(inc, Ev.yR)}) : InitDesignEval_(Ev.yR, merged, w)
+  /\ CallAgrees /\ Consume
 RSearchEval ==
   /\ EvOk("search")
   /\ \E outcome \in {"failure", "incremental", "success"}, merged \in BOOLEAN :
